@@ -36,5 +36,12 @@ CHECK = {
             "shards": {"quick": 16, "thorough": 16},
             "budget_s": {"quick": 40, "thorough": 400},
         },
+        {
+            "name": "c17-refserver", "pkg": "internal/app/referenceserver",
+            "harness": ["referenceserver/c17_refserver_test.go", "referenceserver/c17_rawresp_test.go"], "extra_files": LIB,
+            "test": "^TestVerifC17ReferenceServer$",
+            "shards": {"quick": 16, "thorough": 16},
+            "budget_s": {"quick": 40, "thorough": 400},
+        },
     ],
 }
